@@ -232,7 +232,7 @@ func runC15(r *vf.Run) {
 			}
 		}
 	} else {
-		for i := 0; i < 150; i++ {
+		for i := 0; i < 600; i++ {
 			damages = append(damages, damage{bucketKinds[rng.Intn(3)], schemaKinds[rng.Intn(len(schemaKinds))], counterKinds[rng.Intn(len(counterKinds))], bitmapKinds[rng.Intn(len(bitmapKinds))]})
 		}
 	}
